@@ -2,8 +2,10 @@
 from __future__ import annotations
 
 import ast
+import re
 
 from ..core import Ctx, RuleResult, rule
+from ..kit import own_nodes
 from ..model import UNKNOWN, AnalysisError, mangle, unparse
 from ..oblig import decide, global_sweep, select
 
@@ -234,3 +236,35 @@ def r11_6_zoned_clock(ctx: Ctx) -> RuleResult:
     for f in r.findings:
         f.rule = "R11.6"
     return r
+
+
+@rule("C11")
+def r11_7_calendar_free_productions(ctx: Ctx) -> RuleResult:
+    from ..retention import check_calendar_free_productions
+
+    rr = RuleResult("R11.9", "conversions between local, offset and zoned values keep the calendar: no result is rebuilt from an instant or local instant alone while a calendar-bearing value is in hand", min_instances=100)
+    check_calendar_free_productions(ctx, rr)
+    return rr
+
+
+@rule("C11")
+def r11_8_zero_offset_conversions(ctx: Ctx) -> RuleResult:
+    """`_minus_zero_offset` / `_plus_zero_offset` convert between the local and the global time line pretending the offset is zero.
+    That is legitimate only as a first guess where no offset is known (the zone mapping probes); in a function that is handed an
+    offset for the value it converts, it ignores that offset."""
+    rr = RuleResult("R11.8", "zero-offset local<->instant conversions occur only where no offset is in hand (zone-mapping guesses)", min_instances=3)
+    for f in sorted(ctx.M.funcs.values(), key=lambda x: x.qual):
+        if isinstance(f.node, ast.Lambda):
+            continue
+        sites = [n for n in own_nodes(f.node) if isinstance(n, ast.Call) and isinstance(n.func, ast.Attribute) and n.func.attr in ("_minus_zero_offset", "_plus_zero_offset")]
+        if not sites:
+            continue
+        offs = [p.arg for p in f.value_params if p.annotation is not None and re.search(r"\bOffset\b", unparse(p.annotation))]
+        own = f.cls is not None and f.self_name is not None and ctx.M.find_method(f.cls, "offset") is not None and f.cls.name not in ("DateTimeZone",)
+        for s in sites:
+            rr.inst()
+            if offs or own:
+                rr.fail(f.qual, f"`{unparse(s)[:70]}` converts with a zero offset although an offset is in hand ({', '.join(offs) or 'self.offset'}): the instant is off by that offset", ctx.loc(f, s))
+            else:
+                rr.ok({"fn": f.qual, "site": unparse(s)[:60], "why": "no offset parameter: a deliberate first guess, corrected by the neighbouring-interval probes (R05.x)"})
+    return rr
